@@ -469,6 +469,12 @@ class RBE:
                             out = (f'{s2["dirty_ret"][0]}', s2['dirty_ret'][1], s2['dirty_ret'][2],
                                    [f'{def_cls}.{fn.name}:{c.lineno}'] + s2['dirty_ret'][3])
                     effs = [e for e in self.eff.of(a, skip_calls=inl) if not self.ignore_effect(e[0], e[1], e[2])]
+                    # a store into an object that was passed in (a parameter other than self) is visible to the caller as well
+                    pnames = {x.arg for x in fn.args.args[1:]} | {x.arg for x in fn.args.kwonlyargs}
+                    for x in walk_shallow(a):
+                        if isinstance(x, (ast.Attribute, ast.Subscript)) and isinstance(x.ctx, (ast.Store, ast.Del)) and root_name(x) in pnames \
+                                and not self.ignore_effect('write', unparse(x), x):
+                            effs.append(('write', unparse(x), x))
                     if effs and out is None:
                         e = effs[0]
                         out = (f'{e[0]} {e[1]}', f'{def_cls}.{fn.name}', getattr(e[2], 'lineno', a.lineno), [])
